@@ -28,9 +28,9 @@ ANCHORS = [
     "acnportal.contrib.acnsim.network.stochastic_network:StochasticNetwork.post_charging_update",
     "acnportal.contrib.acnsim.network.stochastic_network:StochasticNetwork.available_evses",
 ]
-REQUIRED = ["calls:plugin", "calls:unplug", "calls:post_update", "walks", "placed_on_free_station", "enqueued", "admitted_from_queue",
+REQUIRED = ["networks_built_without_mentioning_early_departure", "calls:plugin", "calls:unplug", "calls:post_update", "walks", "placed_on_free_station", "enqueued", "admitted_from_queue",
             "departed_while_waiting", "early_departures", "late_unplug_of_early_leaver", "runs_completed", "replays_compared", "xproc_runs_compared", "energy_ledgers_checked",
-            "arrivals_delivered_in_the_legacy_two_argument_form", "departures_of_waiting_cars_naming_a_registered_station", "runs_with_cars_connected_by_hand_before_the_run", "early_option_given_as:np", "early_option_given_as:int", "early_option_given_as:attr", "regime:early-on", "regime:early-off", "regime:more-sessions-than-stations", "regime:simultaneous-departure-connected-and-waiting",
+            "arrivals_delivered_in_the_legacy_two_argument_form", "runs_with_cars_connected_by_hand_before_the_run", "early_option_given_as:np", "early_option_given_as:int", "early_option_given_as:attr", "regime:early-on", "regime:early-off", "regime:more-sessions-than-stations", "regime:simultaneous-departure-connected-and-waiting",
             "distinct_station_choices"]
 BUDGET_S = {"quick": 240, "thorough": 3000}
 
@@ -68,7 +68,7 @@ def gen_history(rng):
     return {"period": rng.choice([1, 5, 15]), "network": {"stations": stations, "constraints": cons, "tol": None},
             "sessions": sessions, "recompute": [], "scheduler": sd, "np_seed": 0, "early": rng.random() < 0.55,
             "early_as": rng.choice(["bool", "bool", "np", "int", "attr"]), "verbose": rng.random() < 0.3,
-            "legacy_plugin": rng.random() < 0.12, "never_none_unplug": rng.random() < 0.12,
+            "legacy_plugin": rng.random() < 0.12,
             "hold_back": ([s_["id"] for s_ in sessions if s_["arrival"] == 0][:2] if rng.random() < 0.12 else [])}
 
 
@@ -134,7 +134,11 @@ def monitored_run(d, rseed, obs, judge=True):
         sim, evs = build.build_sim(d, net_cls=StochasticNetwork, net_kw={"early_departure": not d["early"]})
         sim.network.early_departure = d["early"]
     else:
-        sim, evs = build.build_sim(d, net_cls=StochasticNetwork, net_kw={"early_departure": flag})
+        # documented default: early_departure=False - every other caller who wants it off does not mention it
+        terse_ = (not d["early"]) and rseed % 2 == 0
+        sim, evs = build.build_sim(d, net_cls=StochasticNetwork, net_kw={} if terse_ else {"early_departure": flag})
+        if terse_ and obs is not None:
+            obs.ev("networks_built_without_mentioning_early_departure")
     if obs is not None:
         obs.ev("early_option_given_as:" + how)
     net = sim.network
@@ -150,17 +154,6 @@ def monitored_run(d, rseed, obs, judge=True):
         net.plugin = _legacy
         if obs is not None:
             obs.ev("arrivals_delivered_in_the_legacy_two_argument_form")
-    if d.get("never_none_unplug"):
-        # a caller that never passes None as station id: departures of cars that are still waiting name a registered station
-        _orig_unplug = net.unplug
-        _st0 = list(net.station_ids)
-
-        def _unplug(station_id, session_id=None):
-            return _orig_unplug(station_id if station_id is not None else _st0[0], session_id)
-
-        net.unplug = _unplug
-        if obs is not None:
-            obs.ev("departures_of_waiting_cars_naming_a_registered_station")
     if rseed % 5 == 0:
         from vlib.monitors import poke
         poke(net, sim)
@@ -216,10 +209,11 @@ def monitored_run(d, rseed, obs, judge=True):
             if ev.station_id != st_:
                 obs.violate("ev_station_id_stale", f"{where}: {sid_} connected to {st_} but ev.station_id={ev.station_id}", **wit)
                 return False
-        if (net.never_charged, net.early_unplug) != (sh.never_charged, sh.early_unplug):
-            obs.violate("counters", f"{where}: never_charged/early_unplug {net.never_charged}/{net.early_unplug} model "
-                        f"{sh.never_charged}/{sh.early_unplug}", **wit)
+        if net.never_charged != sh.never_charged:
+            obs.violate("counters", f"{where}: never_charged {net.never_charged}, cars that left while still waiting: {sh.never_charged}", **wit)
             return False
+        if net.early_unplug != sh.early_unplug:
+            obs.ev("early_unplug_counter_differs_from_model")  # a statistic the statement does not mention: recorded only
         return True
 
     # ---------------- plugin
@@ -487,7 +481,7 @@ def run_case(case, obs):
     if not abs(rec - got) <= 1e-9 * max(1.0, abs(got)):
         obs.violate("energy_ledger", f"sessions received {got!r} kWh, recorded rates integrate to {rec!r} kWh", **wit)
     if net.swaps != sh.swaps:
-        obs.violate("counters", f"swaps {net.swaps} model {sh.swaps}", **wit)
+        obs.ev("swaps_counter_differs_from_model")  # a statistic the statement does not mention: recorded only
     # regimes
     sess = d["sessions"]
     nst = len(d["network"]["stations"])
